@@ -195,6 +195,61 @@ func tyeqSharedCase(g *tyGen) Case {
 	return c
 }
 
+// unifyCycleCase: systems of equations over several variables given as two tuples, with
+// cross references between the variables: x_i =? C[x_j].  Cyclic systems must be refused
+// (occurs check on the substituted type), chains must succeed.
+func unifyCycleCase(g *tyGen) Case {
+	vars := []string{"a", "b", "c"}
+	n := 2 + g.r.Intn(2)
+	wrap := func(t *T) *T {
+		switch g.r.Intn(5) {
+		case 0:
+			return tList(t)
+		case 1:
+			return tMaybe(t)
+		case 2:
+			return tObj(TF{"f", t}, TF{"g", tNum})
+		case 3:
+			return tMap(tStr, t)
+		default:
+			return tFun("f", []*T{t}, tNum)
+		}
+	}
+	var ls, rs []*T
+	cyclic := g.r.Intn(2) == 0
+	for i := 0; i < n; i++ {
+		ls = append(ls, tVar(vars[i]))
+		var target *T
+		if i+1 < n {
+			target = wrap(tVar(vars[i+1]))
+		} else if cyclic {
+			target = wrap(tVar(vars[0]))
+		} else {
+			target = wrap(tNum)
+		}
+		rs = append(rs, target)
+	}
+	// random orientation per component and random order of the equations
+	perm := g.r.Perm(n)
+	var xs, ys []*T
+	for _, i := range perm {
+		if g.r.Intn(2) == 0 {
+			xs, ys = append(xs, ls[i]), append(ys, rs[i])
+		} else {
+			xs, ys = append(xs, rs[i]), append(ys, ls[i])
+		}
+	}
+	tag := "chain"
+	if cyclic {
+		tag = "cycle"
+	}
+	c := unifyCase(tTuple(xs...), tTuple(ys...), tag)
+	if cyclic && c.Want != "(err fail)" && c.Want != "(err panic)" && c.Oracle == "" && c.Want != "skipped" {
+		c.Oracle, c.OracleID = "a cyclic system of equations was unified (some variable is bound to a type containing itself)", "unify-occurs"
+	}
+	return c
+}
+
 func tyeqTransCase(a, b, c3 *T) Case {
 	c := Case{Human: "tyeq-trans " + a.String() + " ~ " + b.String() + " ~ " + c3.String(), Tags: []string{"tyeq:trans"}}
 	res := safely(func() string {
@@ -425,6 +480,9 @@ func init() {
 				}
 				if i%6 == 0 {
 					cs = append(cs, tyeqSharedCase(gv))
+				}
+				if i%5 == 0 {
+					cs = append(cs, unifyCycleCase(gv))
 				}
 				switch i % 4 {
 				case 0:
